@@ -48,6 +48,9 @@ type HarnessResult struct {
 	Known              []string
 	Replays            []ReplayOutcome
 	Validated          int
+	Sequenced          int    // validated natively with the engine's schedule enforced to the end
+	SeqDiverged        int    // sequenced runs that left the schedule (compared on assertions only)
+	SeqNote            string
 	ValidationMismatch []string
 	Notes              []string
 	NoNative           bool
@@ -133,6 +136,7 @@ var directiveRe = regexp.MustCompile(`^//vf:(\w+)\s*(.*)$`)
 func (r *CheckRun) harnessCfg(fn *ssa.Function) (Cfg, []string, []string) {
 	cfg := defaultCfg()
 	cfg.Workers = r.Workers
+	cfg.RepoDir = r.Repo
 	if r.Solver != "" {
 		cfg.Solver = r.Solver
 	}
@@ -438,7 +442,26 @@ func (r *CheckRun) validate() (problems []string) {
 			byDir[hr.PkgDir] = append(byDir[hr.PkgDir], &replayJob{hr: hr, path: p})
 		}
 	}
+	nSeq := 0
 	for dir, jobs := range byDir {
+		// paths with several goroutines are replayed with the engine's schedule enforced
+		// (one instrumented build per package, shared by all its witnesses)
+		seq := r.newSequencer()
+		var first *replayJob
+		for _, j := range jobs {
+			if j.hr.Twin || goroutinesIn(j.path.Ops) < 2 {
+				continue
+			}
+			if sched, _ := seq.schedule(j.path.Ops); len(sched) > 0 {
+				j.schedOps, _ = json.Marshal(sched)
+				if first == nil {
+					first = j
+				}
+			}
+		}
+		if first != nil {
+			first.extraOverlay = seq.render()
+		}
 		if err := r.runNative(dir, jobs); err != nil {
 			problems = append(problems, err.Error())
 			continue
@@ -450,7 +473,20 @@ func (r *CheckRun) validate() (problems []string) {
 			}
 			isViol := j.path.Violated != "" || j.path.Outcome == outcomePanic
 			if !isViol {
-				if msg := compareNative(j.path, j.out, j.hr.Twin); msg != "" {
+				// a sequenced run that left the schedule took another interleaving: only
+				// its assertions are compared, like a twin's
+				loose := j.hr.Twin || (j.schedOps != nil && j.out.SchedReport != "")
+				if j.schedOps != nil {
+					if j.out.SchedReport == "" {
+						j.hr.Sequenced++
+					} else {
+						j.hr.SeqDiverged++
+						if j.hr.SeqNote == "" {
+							j.hr.SeqNote = j.out.SchedReport
+						}
+					}
+				}
+				if msg := compareNative(j.path, j.out, loose); msg != "" {
 					j.hr.ValidationMismatch = append(j.hr.ValidationMismatch, msg+" [witness "+witnessString(j.path)+"]")
 				} else {
 					j.hr.Validated++
@@ -472,6 +508,23 @@ func (r *CheckRun) validate() (problems []string) {
 					}
 				}
 			}
+			if !ok && j.schedOps != nil && nSeq < 6 {
+				// the instrumentation may itself disturb the run: once more without it
+				nSeq++
+				again := &replayJob{hr: j.hr, path: j.path}
+				if err := r.runNative(dir, []*replayJob{again}); err == nil && again.out != nil {
+					if ok2, d2 := violationReproduced(j.path, again.out); ok2 {
+						ok, detail = true, d2+" (under Go's own scheduler)"
+						j.schedOps = nil
+					}
+				}
+			} else if ok && j.schedOps != nil && j.out.Sequenced {
+				detail += " (engine's schedule enforced natively"
+				if j.out.SchedReport != "" {
+					detail += "; sequencer: " + j.out.SchedReport
+				}
+				detail += ")"
+			}
 			ro := ReplayOutcome{Reproduced: ok, Detail: detail, Signature: pathSignature(j.path), Assertion: j.path.Violated}
 			if j.path.Outcome == outcomePanic {
 				ro.Assertion = "no-panic"
@@ -481,7 +534,11 @@ func (r *CheckRun) validate() (problems []string) {
 				os.MkdirAll(filepath.Join(r.Verif, "replay"), 0o755)
 				name := fmt.Sprintf("%s-%s-%d.json", r.Prop, j.hr.Name, len(j.hr.Replays))
 				ro.Path = filepath.Join(r.Verif, "replay", name)
-				b, _ := json.MarshalIndent(makeWitness(r.Prop, j.hr, j.path, r.tierN()), "", " ")
+				w := makeWitness(r.Prop, j.hr, j.path, r.tierN())
+				if j.schedOps != nil {
+					w.SchedOps, w.Ops = j.schedOps, j.path.Ops
+				}
+				b, _ := json.MarshalIndent(w, "", " ")
 				os.WriteFile(ro.Path, b, 0o644)
 			}
 			j.hr.Replays = append(j.hr.Replays, ro)
@@ -607,6 +664,9 @@ func (r *CheckRun) writeEvidence(violations, code int) error {
 		SolverS   float64                   `json:"solver_s"`
 		WallS     float64                   `json:"wall_s"`
 		Validated int                       `json:"paths_validated_natively"`
+		Sequenced int                       `json:"of_which_with_the_engine_schedule_enforced,omitempty"`
+		SeqDiv    int                       `json:"sequenced_runs_that_left_the_schedule,omitempty"`
+		SeqNote   string                    `json:"first_schedule_divergence,omitempty"`
 		Notes     []string                  `json:"notes,omitempty"`
 	}
 	var hs []hsum
@@ -618,7 +678,7 @@ func (r *CheckRun) writeEvidence(violations, code int) error {
 	for _, hr := range r.results {
 		ex := hr.Ex
 		h := hsum{Harness: hr.Name, Package: hr.Pkg, Paths: ex.Paths, Outcomes: map[string]int{}, Asserts: map[string]map[string]int{}, Reached: ex.ReachStats,
-			Queries: ex.Queries, SolverS: ex.SolverTime.Seconds(), WallS: hr.Wall.Seconds(), Validated: hr.Validated, Notes: hr.Notes,
+			Queries: ex.Queries, SolverS: ex.SolverTime.Seconds(), WallS: hr.Wall.Seconds(), Validated: hr.Validated, Sequenced: hr.Sequenced, SeqDiv: hr.SeqDiverged, SeqNote: hr.SeqNote, Notes: hr.Notes,
 			Bounds: map[string]int{"unwind": hr.Cfg.Unwind, "max_decisions": hr.Cfg.MaxDecisions, "max_paths": hr.Cfg.MaxPaths, "max_steps": hr.Cfg.MaxSteps,
 				"preemption_bound": hr.Cfg.PreemptBound, "max_goroutines": hr.Cfg.MaxGoroutines, "max_timer_fires": hr.Cfg.MaxTimerFires, "deepest_decision_depth": ex.MaxDecDepth}}
 		for o, n := range ex.ByOutcome {
